@@ -262,6 +262,7 @@ func (r *runner) build(n *core.Node, t Tx) (pb.Transaction, map[string]interface
 		sigs := []map[string]interface{}{}
 		if t.Ms {
 			bp := &pb.BxhProof{TxStatus: pb.TransactionStatus(t.MsStatus)}
+			occ := map[string]int{}
 			for _, sp := range t.Sigs {
 				who, over := sp, "this"
 				if i := strings.Index(sp, "!"); i >= 0 {
@@ -274,6 +275,16 @@ func (r *runner) build(n *core.Node, t Tx) (pb.Transaction, map[string]interface
 				}
 				v := *ibtp
 				stt := bp.TxStatus
+				occ[who+"/"+over]++
+				if over == "this" && occ[who+"/this"] == 2 && (int(t.Idx)+len(t.Sigs))%2 == 0 {
+					over = "twin" // a repeated signer: now the identical bytes, now the signer's other valid signature
+				}
+				if over == "twin" { // the same signer's second valid signature over this very message: (r, N-s, v^1)
+					sg := core.TwinSignature(core.SignIBTP(n.Account("val-"+who), &v, stt))
+					bp.MultiSign = append(bp.MultiSign, sg)
+					sigs = append(sigs, map[string]interface{}{"who": who, "over": "this"})
+					continue
+				}
 				switch over {
 				case "idx":
 					v.Index++
@@ -945,6 +956,9 @@ func genPlan(rng *rand.Rand, name string, mode string) *Plan {
 			if rng.Intn(25) == 0 {
 				s = "chainZ:svc9" // unregistered source
 			}
+			if len(p.Unord) > 0 && rng.Intn(3) == 0 {
+				d = p.Unord[0]
+			}
 			if s != d || rng.Intn(6) == 0 {
 				return s, d
 			}
@@ -971,6 +985,7 @@ func genPlan(rng *rand.Rand, name string, mode string) *Plan {
 		s, d string
 		idx  uint64
 	}
+	var sentU []Tx     // requests sent to the unordered service (replayed later)
 	var groupKids []Tx // children of declared groups not yet sent
 	var groupRcpt []Tx // receipts of group children not yet sent
 	nsteps := 8 + rng.Intn(14)
@@ -1048,10 +1063,18 @@ func genPlan(rng *rand.Rand, name string, mode string) *Plan {
 				if rng.Intn(9) == 0 {
 					proof = []string{"bad", "none"}[rng.Intn(2)]
 				}
-				if rng.Intn(5) < 3 {
+				if len(p.Unord) > 0 && len(sentU) > 0 && rng.Intn(4) == 0 {
+					// the very same request again, towards the unordered service (no index check stops it)
+					q := sentU[rng.Intn(len(sentU))]
+					q.From = from
+					txs = append(txs, q)
+				} else if rng.Intn(5) < 3 {
 					idx := idxAround(next[pair])
 					if idx == next[pair] && proof == "ok" {
 						next[pair]++
+					}
+					if len(p.Unord) > 0 && d == p.Unord[0] {
+						sentU = append(sentU, Tx{K: "ibtp", Src: s, Dst: d, Idx: idx, Typ: "REQ", T: timeouts[rng.Intn(len(timeouts))], Proof: "ok"})
 					}
 					txs = append(txs, Tx{K: "ibtp", Src: s, Dst: d, Idx: idx, Typ: "REQ", T: timeouts[rng.Intn(len(timeouts))], Proof: proof, From: from})
 				} else if rng.Intn(9) > 0 {
@@ -1115,6 +1138,7 @@ func genXhub(rng *rand.Rand, name string) *Plan {
 		remote[1] = "7777:chainY:svcY"
 	}
 	next, nextR := map[string]uint64{}, map[string]uint64{}
+	decoys := rng.Intn(7)
 	sigsFor := func(end string) []string {
 		reg := map[string]bool{}
 		var regs []string
@@ -1135,22 +1159,52 @@ func genXhub(rng *rand.Rand, name string) *Plan {
 		rng.Shuffle(len(regs), func(a, b int) { regs[a], regs[b] = regs[b], regs[a] })
 		want := thr + 1 // just enough
 		switch rng.Intn(8) {
-		case 0, 1:
+		case 0, 1, 2:
 			want = thr // one too few
-		case 2:
-			want = len(regs)
 		case 3:
+			want = len(regs)
+		case 4:
 			want = 0
 		}
 		if want > len(regs) {
 			want = len(regs)
 		}
 		out := append([]string{}, regs[:want]...)
+		if want == thr && want > 0 && rng.Intn(3) > 0 {
+			// one short, plus exactly one decoy that must not count: cycled through every kind
+			decoys++
+			switch decoys % 7 {
+			case 0:
+				out = append(out, out[0]) // the same signature again
+			case 1:
+				out = append(out, out[0]+"!twin") // the same signer's other valid signature
+			case 2:
+				out = append(out, fmt.Sprintf("x%d", rng.Intn(3))) // unregistered
+			case 3:
+				out = append(out, regs[len(regs)-1]+"!idx")
+			case 4:
+				out = append(out, regs[len(regs)-1]+"!status")
+			case 5:
+				out = append(out, regs[len(regs)-1]+"!type")
+			case 6:
+				if p.Relay2 != nil {
+					out = append(out, "w0") // registered, but on the other hub
+				} else {
+					out = append(out, regs[len(regs)-1]+"!from")
+				}
+			}
+			rng.Shuffle(len(out), func(a, b int) { out[a], out[b] = out[b], out[a] })
+			return out
+		}
 		// padding that must not count
 		for k := rng.Intn(4); k > 0 && len(out) > 0+0; k-- {
 			switch rng.Intn(5) {
 			case 0:
-				out = append(out, out[rng.Intn(len(out))]) // duplicate signer
+				dup := out[rng.Intn(len(out))] // duplicate signer: the same bytes again, or the signer's twin signature
+				if rng.Intn(2) == 0 && !strings.Contains(dup, "!") && dup != "junk" {
+					dup += "!twin"
+				}
+				out = append(out, dup)
 			case 1:
 				out = append(out, fmt.Sprintf("x%d", rng.Intn(3))) // unregistered signer
 			case 2:
@@ -1190,6 +1244,7 @@ func genXhub(rng *rand.Rand, name string) *Plan {
 		T    int64
 	}
 	var reqs []sent
+	var sentX []Tx // requests of the other hub, as sent
 	nsteps := 10 + rng.Intn(14)
 	for i := 0; i < nsteps; i++ {
 		c := rng.Intn(24)
@@ -1205,6 +1260,9 @@ func genXhub(rng *rand.Rand, name string) *Plan {
 				switch k := rng.Intn(10); {
 				case k < 3: // request from the other hub to a local service
 					s, d := remote[rng.Intn(2)], local[rng.Intn(2)]
+					if len(p.Unord) > 0 && rng.Intn(2) == 0 {
+						d = p.Unord[0] // no index check towards an unordered service: replays reach the transaction manager
+					}
 					if rng.Intn(14) == 0 {
 						s = []string{"8888:chainX:svcX", "chainA:chainX:svcX"}[rng.Intn(2)] // unregistered hub / an appchain that is no hub
 					}
@@ -1225,6 +1283,7 @@ func genXhub(rng *rand.Rand, name string) *Plan {
 						next[pr]++ // optimistic; the proof may still fail
 					}
 					reqs = append(reqs, sent{s, d, idx, t.T})
+					sentX = append(sentX, t)
 					txs = append(txs, t)
 				case k < 5: // request from a local service to the other hub
 					s, d := local[rng.Intn(2)], remote[rng.Intn(2)]
@@ -1245,6 +1304,10 @@ func genXhub(rng *rand.Rand, name string) *Plan {
 					}
 					reqs = append(reqs, sent{s, d, idx, t.T})
 					txs = append(txs, t)
+				case k < 8 && len(sentX) > 0 && rng.Intn(5) == 0: // a request of the other hub delivered a second time, as it was
+					t := sentX[rng.Intn(len(sentX))]
+					t.From = from
+					txs = append(txs, t)
 				case k < 8 && len(reqs) > 0: // a receipt or a notice for something sent earlier
 					q := reqs[rng.Intn(len(reqs))]
 					idx := q.idx
@@ -1252,7 +1315,7 @@ func genXhub(rng *rand.Rand, name string) *Plan {
 						idx = idxAround(idx)
 					}
 					if rng.Intn(3) == 0 { // notice: the request again, carrying the other hub's status
-						t := Tx{K: "ibtp", Src: q.s, Dst: q.d, Idx: idx, Typ: "REQ", T: q.T, Proof: proof, From: from, Notice: []string{"BF", "RB", "BF", "RB", "OK", "junk"}[rng.Intn(6)]}
+						t := Tx{K: "ibtp", Src: q.s, Dst: q.d, Idx: idx, Typ: "REQ", T: q.T, Proof: proof, From: from, Notice: []string{"BF", "RB", "BF", "RB", "OK", "junk", "", ""}[rng.Intn(8)]}
 						if !strings.HasPrefix(q.s, "chain") || rng.Intn(5) == 0 {
 							t.Ms, t.Sigs, t.MsStatus = true, sigsFor(q.s), []int{0, 1, 2}[rng.Intn(3)]
 						}
@@ -1419,6 +1482,48 @@ func genTimed(rng *rand.Rand, name string) *Plan {
 	for round := 0; round < 4; round++ {
 		s, d := svcs[rng.Intn(len(svcs))], svcs[rng.Intn(len(svcs))]
 		if s == d {
+			continue
+		}
+		if rng.Intn(4) == 0 {
+			// several requests sharing one timeout height (same block or consecutive blocks with T, T-1), their receipts
+			// together in one block before, at or after that height
+			k := 2 + rng.Intn(2)
+			T := int64(2 + rng.Intn(2))
+			var rq, rc []Tx
+			for j := 0; j < k; j++ {
+				d2 := svcs[rng.Intn(len(svcs))]
+				if d2 == s {
+					continue
+				}
+				pr := s + ">" + d2
+				used[pr]++
+				rq = append(rq, Tx{K: "ibtp", Src: s, Dst: d2, Idx: used[pr], Typ: "REQ", T: T, From: "u1"})
+				rc = append(rc, Tx{K: "ibtp", Src: s, Dst: d2, Idx: used[pr], Typ: []string{"OK", "OK", "FAIL"}[rng.Intn(3)], From: "u2"})
+			}
+			if len(rq) < 2 {
+				continue
+			}
+			if rng.Intn(2) == 0 {
+				p.Steps = append(p.Steps, Step{Step: "block", Txs: rq})
+			} else { // consecutive blocks, same expiry height
+				p.Steps = append(p.Steps, Step{Step: "block", Txs: rq[:1]})
+				for j := range rq[1:] {
+					rq[j+1].T = T - 1
+				}
+				p.Steps = append(p.Steps, Step{Step: "block", Txs: rq[1:]})
+				T--
+			}
+			delay := int(T) - 1 + rng.Intn(3)
+			if delay > 1 {
+				p.Steps = append(p.Steps, Step{Step: "empty", N: delay - 1})
+			}
+			if rng.Intn(4) == 0 {
+				rc = rc[:len(rc)-1] // one of them gets no receipt
+			}
+			if delay >= 1 {
+				p.Steps = append(p.Steps, Step{Step: "block", Txs: rc})
+			}
+			p.Steps = append(p.Steps, Step{Step: "empty", N: 3})
 			continue
 		}
 		pr := s + ">" + d
